@@ -1309,6 +1309,7 @@ pub fn family<F: VF>(ctx: &mut Ctx) {
     if th {
         identity::<F>(ctx, true);
     }
+    e2e_corruptions(ctx);
     helpers::<F>(ctx);
     fri_combine::<F>(ctx);
     fri_compute_evaluation::<F>(ctx);
@@ -1316,4 +1317,156 @@ pub fn family<F: VF>(ctx: &mut Ctx) {
     select_proof::<F>(ctx);
     select_small::<F>(ctx);
     cyclic::<F>(ctx);
+}
+
+// ------------------------------------------------------------------------------------------
+// C06, end to end on concrete proofs: the recursive verifier circuit rejects every single-element
+// corruption of an accepted proof that the native verifier rejects (and accepts the honest proof).
+// This is where in-circuit hashing / Merkle verification / the in-circuit challenger / the
+// proof-of-work check are exercised as CHECKED facts. Concrete structure and values: evaluated
+// facts on the real builder, prover and verifiers (one outer proof attempt per corruption).
+// ------------------------------------------------------------------------------------------
+
+const E2E_FILES: &[&str] = &[
+    "plonky2/src/recursion/recursive_verifier.rs::CircuitBuilder::verify_proof",
+    "plonky2/src/recursion/recursive_verifier.rs::CircuitBuilder::verify_proof_with_challenges",
+    "plonky2/src/fri/recursive_verifier.rs::CircuitBuilder::verify_fri_proof",
+    "plonky2/src/fri/recursive_verifier.rs::CircuitBuilder::fri_verifier_query_round",
+    "plonky2/src/fri/recursive_verifier.rs::CircuitBuilder::fri_verify_proof_of_work",
+    "plonky2/src/fri/recursive_verifier.rs::CircuitBuilder::fri_verify_initial_proof",
+    "plonky2/src/hash/merkle_proofs.rs::CircuitBuilder::verify_merkle_proof_to_cap_with_cap_index",
+    "plonky2/src/iop/challenger.rs::RecursiveChallenger",
+    "plonky2/src/plonk/get_challenges.rs::ProofWithPublicInputsTarget::get_challenges",
+    "plonky2/src/plonk/verifier.rs::verify",
+];
+
+pub fn e2e_corruptions(ctx: &mut Ctx) {
+    use plonky2::plonk::config::PoseidonGoldilocksConfig as C;
+    use plonky2_field::goldilocks_field::GoldilocksField as G;
+    type P = ProofWithPublicInputs<G, C, 2>;
+    if ctx.is_witness_run() || !ctx.wants("C06.S.recursion.e2e.") {
+        return;
+    }
+    let std_cfg = CircuitConfig::standard_recursion_config();
+    let mut alt = CircuitConfig::standard_recursion_config();
+    alt.fri_config.cap_height = 2;
+    alt.fri_config.reduction_strategy = FriReductionStrategy::Fixed(vec![2, 1, 1]);
+    alt.fri_config.num_query_rounds = 30;
+    alt.fri_config.proof_of_work_bits = 14;
+    alt.num_challenges = 3;
+    for (cname, inner_cfg) in [("standard", std_cfg.clone()), ("cap2-arity211-3ch", alt)] {
+        let setup = std::panic::catch_unwind(std::panic::AssertUnwindSafe(|| {
+            // inner circuit: arithmetic + a hash, so that every oracle has several polynomials
+            let mut b = CircuitBuilder::<G, 2>::new(inner_cfg.clone());
+            let x = b.add_virtual_target();
+            let y = b.add_virtual_target();
+            let mut z = b.mul(x, y);
+            for _ in 0..150 {
+                z = b.mul_add(z, y, x);
+            }
+            let h = b.hash_n_to_hash_no_pad::<PoseidonHash>(vec![x, y, z]);
+            b.register_public_input(z);
+            b.register_public_inputs(&h.elements);
+            let inner = b.build::<C>();
+            let mut pw = PartialWitness::<G>::new();
+            pw.set_target(x, G::from_canonical_u64(3)).unwrap();
+            pw.set_target(y, G::from_canonical_u64(0x1234_5678_9abc)).unwrap();
+            let proof = inner.prove(pw).expect("inner proof");
+            inner.verify(proof.clone()).expect("inner proof verifies");
+            // outer circuit
+            let mut ob = CircuitBuilder::<G, 2>::new(CircuitConfig::standard_recursion_config());
+            let pt = ob.add_virtual_proof_with_pis(&inner.common);
+            let vd = ob.add_virtual_verifier_data(inner.common.config.fri_config.cap_height);
+            ob.verify_proof::<C>(&pt, &vd, &inner.common);
+            let outer = ob.build::<C>();
+            (inner, proof, outer, pt, vd)
+        }));
+        let Ok((inner, proof, outer, pt, vd)) = setup else {
+            ctx.guarded(&format!("C06.S.recursion.e2e.{cname}.setup"), E2E_FILES, |_| panic!("building / proving the inner or outer circuit panicked"));
+            continue;
+        };
+        // does the recursive verifier accept (outer proof exists and verifies)?
+        let recursive_accepts = |p: &P, cap: &MerkleCap<G, PoseidonHash>, digest: HashOut<G>| -> bool {
+            let r = std::panic::catch_unwind(std::panic::AssertUnwindSafe(|| {
+                let mut pw = PartialWitness::<G>::new();
+                pw.set_proof_with_pis_target(&pt, p).ok()?;
+                pw.set_cap_target(&vd.constants_sigmas_cap, cap).ok()?;
+                pw.set_hash_target(vd.circuit_digest, digest).ok()?;
+                let op = outer.prove(pw).ok()?;
+                outer.verify(op).ok()
+            }));
+            matches!(r, Ok(Some(())))
+        };
+        let native_accepts = |p: &P, cap: &MerkleCap<G, PoseidonHash>, digest: HashOut<G>| -> bool {
+            let mut vo = inner.verifier_only.clone();
+            vo.constants_sigmas_cap = cap.clone();
+            vo.circuit_digest = digest;
+            let vdata = plonky2::plonk::circuit_data::VerifierCircuitData::<G, C, 2> { verifier_only: vo, common: inner.common.clone() };
+            let r = std::panic::catch_unwind(std::panic::AssertUnwindSafe(|| vdata.verify(p.clone())));
+            matches!(r, Ok(Ok(())))
+        };
+        let cap0 = inner.verifier_only.constants_sigmas_cap.clone();
+        let dig0 = inner.verifier_only.circuit_digest;
+        type M = Box<dyn Fn(&mut P, &mut MerkleCap<G, PoseidonHash>, &mut HashOut<G>)>;
+        let one = G::ONE;
+        let e1 = <G as Extendable<2>>::Extension::from_basefield_array([G::ZERO, G::ONE]);
+        let nq = proof.proof.opening_proof.query_round_proofs.len();
+        let nsteps = proof.proof.opening_proof.commit_phase_merkle_caps.len();
+        let mut muts: Vec<(String, M)> = vec![
+            ("honest".into(), Box::new(|_, _, _| {})),
+            ("public_inputs[0]".into(), Box::new(move |p, _, _| p.public_inputs[0] += one)),
+            ("public_inputs[last]".into(), Box::new(move |p, _, _| *p.public_inputs.last_mut().unwrap() += one)),
+            ("openings.constants[0]".into(), Box::new(move |p, _, _| p.proof.openings.constants[0] += e1)),
+            ("openings.plonk_sigmas[last]".into(), Box::new(move |p, _, _| *p.proof.openings.plonk_sigmas.last_mut().unwrap() += e1)),
+            ("openings.wires[1]".into(), Box::new(move |p, _, _| p.proof.openings.wires[1] += e1)),
+            ("openings.plonk_zs[last]".into(), Box::new(move |p, _, _| *p.proof.openings.plonk_zs.last_mut().unwrap() += e1)),
+            ("openings.plonk_zs_next[0]".into(), Box::new(move |p, _, _| p.proof.openings.plonk_zs_next[0] += e1)),
+            ("openings.partial_products[last]".into(), Box::new(move |p, _, _| *p.proof.openings.partial_products.last_mut().unwrap() += e1)),
+            ("openings.quotient_polys[last]".into(), Box::new(move |p, _, _| *p.proof.openings.quotient_polys.last_mut().unwrap() += e1)),
+            ("wires_cap[last]".into(), Box::new(move |p, _, _| p.proof.wires_cap.0.last_mut().unwrap().elements[3] += one)),
+            ("zs_cap[0]".into(), Box::new(move |p, _, _| p.proof.plonk_zs_partial_products_cap.0[0].elements[0] += one)),
+            ("quotient_cap[1]".into(), Box::new(move |p, _, _| p.proof.quotient_polys_cap.0[1].elements[2] += one)),
+            ("fri.final_poly[0]".into(), Box::new(move |p, _, _| p.proof.opening_proof.final_poly.coeffs[0] += e1)),
+            ("fri.final_poly[last]".into(), Box::new(move |p, _, _| *p.proof.opening_proof.final_poly.coeffs.last_mut().unwrap() += e1)),
+            ("fri.pow_witness".into(), Box::new(move |p, _, _| p.proof.opening_proof.pow_witness += one)),
+            ("verifier_data.constants_sigmas_cap[last]".into(), Box::new(move |_, c, _| c.0.last_mut().unwrap().elements[1] += one)),
+            ("verifier_data.circuit_digest".into(), Box::new(move |_, _, d| d.elements[3] += one)),
+        ];
+        for s in 0..nsteps {
+            muts.push((format!("fri.commit_cap[{s}][last]"), Box::new(move |p, _, _| p.proof.opening_proof.commit_phase_merkle_caps[s].0.last_mut().unwrap().elements[0] += one)));
+            let q = (s + 1) % nq;
+            muts.push((format!("fri.query[{q}].steps[{s}].evals[last]"), Box::new(move |p, _, _| *p.proof.opening_proof.query_round_proofs[q].steps[s].evals.last_mut().unwrap() += e1)));
+            let q2 = (s + 5) % nq;
+            muts.push((format!("fri.query[{q2}].steps[{s}].siblings[last]"), Box::new(move |p, _, _| {
+                if let Some(h) = p.proof.opening_proof.query_round_proofs[q2].steps[s].merkle_proof.siblings.last_mut() {
+                    h.elements[2] += one;
+                } else {
+                    p.proof.opening_proof.query_round_proofs[q2].steps[s].evals[0] += e1;
+                }
+            })));
+        }
+        for k in 0..4usize {
+            let q = (3 * k + 2) % nq;
+            muts.push((format!("fri.query[{q}].initial.evals[{k}][last]"), Box::new(move |p, _, _| *p.proof.opening_proof.query_round_proofs[q].initial_trees_proof.evals_proofs[k].0.last_mut().unwrap() += one)));
+            let q2 = (3 * k + 7) % nq;
+            muts.push((format!("fri.query[{q2}].initial.siblings[{k}][0]"), Box::new(move |p, _, _| p.proof.opening_proof.query_round_proofs[q2].initial_trees_proof.evals_proofs[k].1.siblings[0].elements[1] += one)));
+            muts.push((format!("fri.query[{q2}].initial.siblings[{k}][last]"), Box::new(move |p, _, _| p.proof.opening_proof.query_round_proofs[q2].initial_trees_proof.evals_proofs[k].1.siblings.last_mut().unwrap().elements[0] += one)));
+        }
+        for (name, m) in muts {
+            let id = format!("C06.S.recursion.e2e.{cname}.{name}");
+            ctx.guarded(&id.clone(), E2E_FILES, |ctx| {
+                let (mut p, mut cap, mut dig) = (proof.clone(), cap0.clone(), dig0);
+                m(&mut p, &mut cap, &mut dig);
+                let nat = native_accepts(&p, &cap, dig);
+                let rec = recursive_accepts(&p, &cap, dig);
+                ctx.add(
+                    Ob::new(id.clone(), E2E_FILES, format!("inner circuit (150 multiply-adds + one Poseidon hash, 5 public inputs) under the {cname} configuration {:?}, one accepted proof with `{name}` altered by one; outer circuit = verify_proof under standard_recursion_config; concrete values", inner.common.config.fri_config))
+                        .sample(format!("the recursive verifier circuit is satisfiable (outer prove + verify succeed) exactly when the native verifier accepts; native accepts: {nat}, recursive accepts: {rec}"))
+                        .goal(A::Bool(nat == rec))
+                        .goal(A::Bool(nat == (name == "honest")))
+                        .key(format!("recursive-verifier:differs-from-native:{}", name.split('[').next().unwrap())),
+                );
+            });
+        }
+    }
 }
